@@ -662,6 +662,19 @@ func main() {
 		b.WriteString("]\n\n")
 		summary[tb.name] = len(rows)
 	}
+	// C12: the error names of ovsdb/error.go and the two conversions between results and typed errors
+	consts, fromResult, fromError := errorTables(filepath.Join(*repo, "ovsdb", "error.go"))
+	pairList := func(ps [][2]string) string {
+		var xs []string
+		for _, p := range ps {
+			xs = append(xs, fmt.Sprintf("(%q, %q)", p[0], p[1]))
+		}
+		return "[" + strings.Join(xs, ", ") + "]"
+	}
+	b.WriteString("/-- the error-name constants of ovsdb/error.go: (constant, text) -/\ndef errorConsts : List (String × String) := " + pairList(consts) + "\n\n")
+	b.WriteString("/-- errorFromResult: (constant of the case, error type returned) -/\ndef errorFromResultTable : List (String × String) := " + pairList(fromResult) + "\n\n")
+	b.WriteString("/-- ResultFromError: (error type of the case, constant put in the result) -/\ndef resultFromErrorTable : List (String × String) := " + pairList(fromError) + "\n\n")
+	summary["error_consts"] = len(consts)
 	// C18: every rpc2 codec is wrapped so that requests and responses are not written concurrently
 	codecs := codecFacts(*repo)
 	b.WriteString("/-- rpc2 codecs of packages client and server that are handed to rpc2 without the serializing wrapper,\n    and wrapper methods that do not take the wrapper's mutex around the write (rpc2 writes responses under no lock) -/\n")
@@ -679,6 +692,106 @@ func main() {
 	}
 	j, _ := json.Marshal(summary)
 	fmt.Println(string(j))
+}
+
+// errorTables: the string constants of error.go; the cases of errorFromResult (case CONST: return &Type{...});
+// the cases of ResultFromError's type switch (case *Type: return OperationResult{Error: CONST, ...})
+func errorTables(file string) (consts, fromResult, fromError [][2]string) {
+	fset := token.NewFileSet()
+	f, err := parser.ParseFile(fset, file, nil, 0)
+	if err != nil {
+		fmt.Fprintln(os.Stderr, err)
+		os.Exit(1)
+	}
+	for _, d := range f.Decls {
+		switch x := d.(type) {
+		case *ast.GenDecl:
+			if x.Tok != token.CONST {
+				continue
+			}
+			for _, sp := range x.Specs {
+				vs := sp.(*ast.ValueSpec)
+				for i, n := range vs.Names {
+					if i < len(vs.Values) {
+						if bl, ok := vs.Values[i].(*ast.BasicLit); ok && bl.Kind == token.STRING {
+							consts = append(consts, [2]string{n.Name, strings.Trim(bl.Value, "\"")})
+						}
+					}
+				}
+			}
+		case *ast.FuncDecl:
+			if x.Body == nil {
+				continue
+			}
+			typeOfReturn := func(body []ast.Stmt) string {
+				if len(body) == 0 {
+					return ""
+				}
+				r, ok := body[len(body)-1].(*ast.ReturnStmt)
+				if !ok || len(r.Results) != 1 {
+					return ""
+				}
+				e := r.Results[0]
+				if u, ok := e.(*ast.UnaryExpr); ok {
+					e = u.X
+				}
+				cl, ok := e.(*ast.CompositeLit)
+				if !ok {
+					return ""
+				}
+				if id, ok := cl.Type.(*ast.Ident); ok {
+					if id.Name == "OperationResult" {
+						for _, el := range cl.Elts {
+							if kv, ok := el.(*ast.KeyValueExpr); ok {
+								if k, ok := kv.Key.(*ast.Ident); ok && k.Name == "Error" {
+									if v, ok := kv.Value.(*ast.Ident); ok {
+										return v.Name
+									}
+								}
+							}
+						}
+						return ""
+					}
+					return id.Name
+				}
+				return ""
+			}
+			ast.Inspect(x.Body, func(n ast.Node) bool {
+				switch sw := n.(type) {
+				case *ast.SwitchStmt:
+					if x.Name.Name != "errorFromResult" {
+						return true
+					}
+					for _, c := range sw.Body.List {
+						cc := c.(*ast.CaseClause)
+						for _, e := range cc.List {
+							if id, ok := e.(*ast.Ident); ok {
+								fromResult = append(fromResult, [2]string{id.Name, typeOfReturn(cc.Body)})
+							}
+						}
+					}
+				case *ast.TypeSwitchStmt:
+					if x.Name.Name != "ResultFromError" {
+						return true
+					}
+					for _, c := range sw.Body.List {
+						cc := c.(*ast.CaseClause)
+						for _, e := range cc.List {
+							if st, ok := e.(*ast.StarExpr); ok {
+								if id, ok := st.X.(*ast.Ident); ok {
+									if cn := typeOfReturn(cc.Body); cn != "" {
+										fromError = append(fromError, [2]string{id.Name, cn})
+									}
+								}
+							}
+						}
+					}
+				}
+				return true
+			})
+		}
+	}
+	return
 }
 
 // switchTable: the first `switch` statement with a tag at the top level of function fn; for every case clause its
